@@ -4,7 +4,7 @@
    first node on the way that holds a value and looks the rest of the reference up inside it.
    Both operations hold the cache's RWMutex for their whole body, so a concurrent history is a
    sequence of them.  Definitions only. *)
-From Regal Require Export Base.Str.
+From Regal Require Export Base.Str Model.Shape.
 
 Definition key := N.
 
@@ -82,3 +82,19 @@ Fixpoint replay (doc : val) (t : trie) (ops : list op) : list (option val) :=
       end
   | OGet ref :: ops' => get t ref :: replay doc t ops'
   end.
+
+(* ---- the locking shape of Get and Put (Gen/LinterShape.v holds what goshape extracted) ------- *)
+Inductive cloc := CRoot | COtherLoc (name : str).
+Definition cloc_eqb (a b : cloc) : bool :=
+  match a, b with
+  | CRoot, CRoot => true
+  | COtherLoc x, COtherLoc y => str_eqb x y
+  | _, _ => false
+  end.
+Definition classify_cache (t : str) : cloc :=
+  if str_eqb t [99;46;114;111;111;116]%N then CRoot else COtherLoc t.       (* c.root *)
+Definition cache_prog_of (mu : str) (g : list gstmt) : list (stmt cloc) :=
+  compile_or_empty classify_cache mu g.
+(* the trie is reached through c.root only (and written through pointers obtained from it):
+   every use of c.root must sit inside the method's single critical section *)
+Definition cache_method_locked (p : list (stmt cloc)) : bool := locked_ok cloc_eqb [CRoot] PBefore p.
